@@ -219,6 +219,41 @@ def value_sites():
     return res
 
 
+def context_forwarding():
+    """StylesheetExecutionContextDefault owns an inner XPathExecutionContextDefault that never strips
+    (`shouldStripSourceNode` returns false there).  Every statement that touches the inner context is listed with
+    its method: services (node stack, caches, prefix resolver, document registry, number formatting, availability tests)
+    may be delegated; anything that lets code observe nodes must be handed `*this`."""
+    p = os.path.join(SRC, "XSLT", "StylesheetExecutionContextDefault.cpp")
+    raw = open(p, encoding="utf-8", errors="replace").read()
+    txt = re.sub(r"//[^\n]*", lambda m: " " * len(m.group(0)), raw)
+    lines = txt.split("\n")
+    res = []
+    i = 0
+    while i < len(lines):
+        if "m_xpathExecutionContextDefault" in lines[i] and "m_xpathExecutionContextDefault(" not in lines[i]:
+            # the whole statement
+            j = i
+            stmt = lines[i]
+            while ";" not in lines[j] and j + 1 < len(lines):
+                j += 1
+                stmt += " " + lines[j]
+            name = "?"
+            for k in range(i, -1, -1):
+                mm = re.match(r"^(StylesheetExecutionContextDefault::[\w~]+)\s*\(", lines[k])
+                if mm:
+                    name = mm.group(1)
+                    break
+            res.append((name, norm(stmt)))
+            i = j + 1
+        else:
+            i += 1
+    inner = os.path.join(SRC, "XPath", "XPathExecutionContextDefault.cpp")
+    b = body_of(inner, r"XPathExecutionContextDefault::shouldStripSourceNode\(")
+    res.append(("XPathExecutionContextDefault::shouldStripSourceNode", b if b is not None else "?function-not-found"))
+    return res
+
+
 def lean_str(s):
     return '"' + s.replace("\\", "\\\\").replace('"', '\\"') + '"'
 
@@ -271,6 +306,12 @@ def main():
             "getNodeData / getChildData / getChildrenData / doGetNodeData calls and whether they hand the context on -/",
             "def valueSitesFunnel : List (String × String × String × String) := ["]
     out.append(",\n".join("  (%s, %s,\n   %s, %s)" % tuple(lean_str(x) for x in v) for v in funnel))
+    cf = context_forwarding()
+    out += ["]", "",
+            "/-- (method of StylesheetExecutionContextDefault, statement) for every statement that touches the inner, never",
+            "stripping XPathExecutionContextDefault, plus that inner context's shouldStripSourceNode -/",
+            "def contextForwarding : List (String × String) := ["]
+    out.append(",\n".join("  (%s,\n   %s)" % (lean_str(a), lean_str(b)) for a, b in cf))
     out += ["]", "", "end XalanModel.Generated.C13_Sites", ""]
     os.makedirs(common.GEN, exist_ok=True)
     with open(os.path.join(common.GEN, "C13_Sites.lean"), "w", encoding="utf-8") as h:
